@@ -24,6 +24,10 @@ structure Request where
   linearizable : Bool := false      -- RangeRequest.linearizable
   success : List ReqOp := []
   failure : List ReqOp := []
+  /-- every other field of a RangeRequest (key, range_end, limit, keys_only, count_only): carried so
+  that the routing statements quantify over them - the routing must not look at them (seeded change
+  C10-g sent linearizable COUNT-ONLY reads down the local path) -/
+  range : Option RangeReq := none
 
 def Request.readonlyTxn (r : Request) : Bool := r.kind == .txn && readonlyOps r.success && readonlyOps r.failure
 
